@@ -49,6 +49,8 @@ BAD = {
     "shebang-env-without-interpreter": b"#!/usr/bin/env\nprint(3975)\n",
     "shebang-only-spaces": b"#!   ",
     "huge-hex-literal": b"x = 0x" + b"f" * 5000 + b"\ny = 7\n",
+    "huge-hex-module-constant": b"MAX_V = 0x" + b"F" * 4000 + b"\nOTHER = 7\n",
+    "huge-hex-call-argument": b"def f():\n    x = g(0x" + b"F" * 4000 + b")\n    print(x)\n    return x\n",
     "huge-decimal-literal": b"let x = " + b"9" * 5000 + b";\n",
     "surrogate-escape-in-membership-test": b"def f(mode):\n    if mode in (\"\\ud800\", \"fast\", \"slow\"):\n        return 1\n    return 0\n",
     "legacy-number-forms": b"fs.chmodSync(path, 0755);\nlet a = 08;\nlet b = 0b2;\nlet c = 1__0;\nlet d = 0x;\nlet e = 1e;\nlet f = 1.2.3;\nlet g = 09n;\n",
